@@ -20,7 +20,7 @@ vars == <<k, a, done>>
 DayMenu(Y) == {OrdOf(y, m, d) : y \in Y, m \in {1, 2, 3, 7, 12}, d \in {1, 13, 28}} \cup {OrdOf(y, 12, 31) : y \in Y} \cup {OrdOf(y, 3, 1) - 1 : y \in Y}
 QuickDays       == DayMenu({1700, 1900, 1970, 1999, 2000, 2024, 2261, 2500}) \cup {Epoch + 13, Epoch + 347, Epoch + 348, SerialBase + 3001}
 QuickGenDays    == DayMenu({1678, 1899, 1969, 1971, 2000, 2023, 2038, 2100, 2261, 2400})
-ThoroughDays    == DayMenu(1600..2600)
+ThoroughDays    == DayMenu({y \in 1600..2600 : y % 5 = 0} \cup 1895..1905 \cup 1995..2005 \cup 2255..2265)
 ThoroughGenDays == DayMenu({y \in 1600..2600 : y % 7 = 0} \cup 1996..2004 \cup {1678, 1899, 1969, 1970, 1971, 2038, 2100, 2261, 2262})
 
 Init == /\ done = FALSE
